@@ -183,7 +183,22 @@ def make_case(ctx, g):
                 if g.chance(0.7):
                     w.new_record(bh, r.get_type().localpart, r.identifier, b.other_attrs(bh, n=1))
                 flags.add("lookup-before-unified")
+    if g.chance(0.3):
+        # the same statement asserted twice: an exact duplicate of a record without identifier (add_record of the record into the
+        # container it is in); unified() keeps both
+        for c in all_containers(w, [d]):
+            anon = [i for i, r in enumerate(w.conts[c].records) if r.identifier is None]
+            if anon and g.chance(0.7):
+                w.add_record(c, w.rec_at(c, g.choice(anon)))
+                flags.add("duplicate-anonymous-record")
     targets = all_containers(w, [d]) if g.chance(0.5) else [d]
+    if g.chance(0.4):
+        # history: look-ups that find nothing (any number of them, for several unknown identifiers) come before unified()
+        for c in all_containers(w, [d]):
+            for i in range(g.rng.randint(0, 4)):
+                w.get_record(c, g.choice(["ex:nothing%d" % i, "http://nowhere.example/x%d" % i,
+                                          QualifiedName(Namespace("ex", "http://example.org/"), "absent%d" % i)]))
+                flags.add("misses-before-unified")
     for c in targets:
         check_unified(ctx, w, c, fails, flags)
     if g.chance(0.4):
